@@ -220,3 +220,135 @@ package knxnet
 //@   exact
 //@   prune
 //@   timeout 120
+
+//@ func lemmaC02stable_TunnelReq_LDataReq_AppData(b []byte)
+//@   props C02
+//@   exact
+//@   prune
+//@   timeout 300
+
+//@ func lemmaC02stable_TunnelReq_LDataReq_ControlData(b []byte)
+//@   props C02
+//@   exact
+//@   prune
+//@   timeout 300
+
+//@ func lemmaC02stable_TunnelReq_LDataCon_AppData(b []byte)
+//@   props C02
+//@   exact
+//@   prune
+//@   timeout 300
+
+//@ func lemmaC02stable_TunnelReq_LDataCon_ControlData(b []byte)
+//@   props C02
+//@   exact
+//@   prune
+//@   timeout 300
+
+//@ func lemmaC02stable_TunnelReq_LDataInd_AppData(b []byte)
+//@   props C02
+//@   exact
+//@   prune
+//@   timeout 300
+
+//@ func lemmaC02stable_TunnelReq_LDataInd_ControlData(b []byte)
+//@   props C02
+//@   exact
+//@   prune
+//@   timeout 300
+
+//@ func lemmaC02stable_TunnelReq_LRawReq(b []byte)
+//@   props C02
+//@   exact
+//@   prune
+//@   timeout 120
+
+//@ func lemmaC02stable_TunnelReq_LRawCon(b []byte)
+//@   props C02
+//@   exact
+//@   prune
+//@   timeout 120
+
+//@ func lemmaC02stable_TunnelReq_LRawInd(b []byte)
+//@   props C02
+//@   exact
+//@   prune
+//@   timeout 120
+
+//@ func lemmaC02stable_TunnelReq_LBusmonInd(b []byte)
+//@   props C02
+//@   exact
+//@   prune
+//@   timeout 120
+
+//@ func lemmaC02stable_TunnelReq_Unsupported(b []byte)
+//@   props C02
+//@   exact
+//@   prune
+//@   timeout 120
+
+//@ func lemmaC02stable_RoutingInd_LDataReq_AppData(b []byte)
+//@   props C02
+//@   exact
+//@   prune
+//@   timeout 300
+
+//@ func lemmaC02stable_RoutingInd_LDataReq_ControlData(b []byte)
+//@   props C02
+//@   exact
+//@   prune
+//@   timeout 300
+
+//@ func lemmaC02stable_RoutingInd_LDataCon_AppData(b []byte)
+//@   props C02
+//@   exact
+//@   prune
+//@   timeout 300
+
+//@ func lemmaC02stable_RoutingInd_LDataCon_ControlData(b []byte)
+//@   props C02
+//@   exact
+//@   prune
+//@   timeout 300
+
+//@ func lemmaC02stable_RoutingInd_LDataInd_AppData(b []byte)
+//@   props C02
+//@   exact
+//@   prune
+//@   timeout 300
+
+//@ func lemmaC02stable_RoutingInd_LDataInd_ControlData(b []byte)
+//@   props C02
+//@   exact
+//@   prune
+//@   timeout 300
+
+//@ func lemmaC02stable_RoutingInd_LRawReq(b []byte)
+//@   props C02
+//@   exact
+//@   prune
+//@   timeout 120
+
+//@ func lemmaC02stable_RoutingInd_LRawCon(b []byte)
+//@   props C02
+//@   exact
+//@   prune
+//@   timeout 120
+
+//@ func lemmaC02stable_RoutingInd_LRawInd(b []byte)
+//@   props C02
+//@   exact
+//@   prune
+//@   timeout 120
+
+//@ func lemmaC02stable_RoutingInd_LBusmonInd(b []byte)
+//@   props C02
+//@   exact
+//@   prune
+//@   timeout 120
+
+//@ func lemmaC02stable_RoutingInd_Unsupported(b []byte)
+//@   props C02
+//@   exact
+//@   prune
+//@   timeout 120
